@@ -293,6 +293,23 @@ func ruleOneTable(c *Check, w *World, tb *TB, ef *Effects, rule string) {
 		ok := len(list) == 1 && list[0] == gsym
 		c.Decide(ok, rule, FuncName(f), "table", "reads the one registry "+gsym, fmt.Sprintf("reads %v instead of exactly the registry %s that ListSuites advertises", list, gsym), w.Pos(f.Pos()))
 	}
+	// the known-suite test and the lookup by name are the table membership / the table entry, nothing else
+	for _, spec := range []struct{ name, want, what string }{
+		{"IsKnownSuite", "lookupok(gval(" + gsym + "); %s)", "membership in the registry"},
+		{"SuiteConfigFromRaws", "lookup(gval(" + gsym + "); %s)", "the registry entry (the zero configuration for an unknown name)"},
+	} {
+		f := w.Func(OtpPath, spec.name)
+		if f == nil || len(f.Params) != 1 {
+			continue
+		}
+		rs := tb.Results(f, nil, nil, 0)
+		want := fmt.Sprintf(spec.want, tb.Of(f.Params[0]).String())
+		got := ""
+		if len(rs) == 1 {
+			got = tb.Norm(rs[0]).String()
+		}
+		c.Decide(got == want, rule, FuncName(f), "table-result", "the result is exactly "+spec.what, "the result is "+clip(got, 200)+", not exactly "+spec.what+": list, known-suite test and lookup by name can disagree", w.Pos(f.Pos()))
+	}
 	// registry never written
 	written := false
 	for _, f := range w.ModuleFuncs(OtpPath) {
@@ -575,6 +592,25 @@ func ruleParserTables(c *Check, w *World, tb *TB, rule string) {
 		if !found[k] {
 			c.Bad(rule, "otp.parser", "token:"+k, "the parser has no case mapping "+k+" (token unsupported or mapped indirectly)", "")
 		}
+	}
+	// the digit count is the parsed number itself: no remapping of values the configuration cannot represent
+	nDig := 0
+	for f := range reach {
+		if fnPkgPath(f) != OtpPath {
+			continue
+		}
+		for _, st := range fieldStores(tb, f, "SuiteConfig")["Digits"] {
+			vt := tb.Of(st.Val)
+			for vt.Op == "conv" && len(vt.Args) == 1 {
+				vt = vt.Args[0]
+			}
+			nDig++
+			ok := vt.Op == "extract" && vt.Sym == "0" && vt.Args[0].Op == "call" && (vt.Args[0].Sym == "strconv.Atoi" || vt.Args[0].Sym == "strconv.ParseUint" || vt.Args[0].Sym == "strconv.ParseInt")
+			c.Decide(ok, rule, FuncName(f), "digits-parsed-verbatim", "Digits is the number parsed from the suite string, unchanged (Validate then rejects what cannot be represented)", "Digits is set from "+clip(vt.String(), 200)+", not from the parsed number unchanged: a string the configuration cannot represent is mapped to another code length instead of being rejected", w.InstrPos(st))
+		}
+	}
+	if nDig == 0 {
+		c.Unk(rule, "otp.parser", "digits-parsed-verbatim", "no store of the parsed digit count found on the path from NewRawSuite", "")
 	}
 	// time units: the function reached from NewRawSuite that switches on a byte/rune unit
 	unitOK := false
